@@ -2,6 +2,9 @@
 C05 — property theorems (statements only; helper lemmas live in `Proofs/C05*.lean`).
 -/
 import Mahotas.Proofs.C05Nd
+import Mahotas.Proofs.C05Strided
+import Mahotas.Proofs.C05Abscissa
+import Mahotas.Proofs.C05Bounds
 open Mahotas Mahotas.C05 Mahotas.C04
 
 /-- **C05-T1 (the 1-D pass is the exact lower envelope).** For every integer line `f` of every
@@ -142,3 +145,158 @@ example : (distanceCoord [4] #[1, 1, 1, 1]).1.data = #[17, 17, 17, 17] ∧ maxDi
 /-- non-vacuity: a line with two zeros, a large fill value and ties -/
 example : dt1d #[5, 9, 0, 9, 9, 1] = [4, 1, 0, 1, 2, 1] := by decide +kernel
 example : (List.range 6).map (minPlus1d #[5, 9, 0, 9, 9, 1]) = [4, 1, 0, 1, 2, 1] := by decide +kernel
+
+/-! ## Round 2 — the flat/strided transliteration of `py_dt`, the wrapper, double vs rational -/
+
+/-- **C05-T2d (`py_dt` on ANY strided 2-D view = the two coordinate-level passes).** `pyDt` is the
+transliteration of `py_dt` of `_distance.cpp` as it is now: for `k = 0, 1` the `size/dim(k)` lines that
+start at `data + start·strides[1−k]` are handed to `dist_transform` with stride `strides[k]`, which
+reads the line, stages `Df`/`ot` and copies them back. For every buffer pair (values, origins), every
+shape `(d0, d1)` with positive sides and every data pointer / element strides `b, s0, s1` (any sign,
+any order: C, Fortran, transposed, reversed, sliced, `(1, n)` rows …) such that the view addresses are
+inside the buffer and pairwise distinct (`ViewOK`, what numpy guarantees for a non-overlapping view;
+likewise for `orig`): the logical images read through the views after the call are exactly
+`passCoord (passCoord · 0) 1` of the logical images before the call, the buffers keep their sizes, and
+every buffer element outside the view is unchanged. -/
+theorem C05_strided_eq_coord (fo : Array Int × Array Int) (d0 d1 : Nat) (b s0 s1 ob os0 os1 : Int)
+    (hd0 : 0 < d0) (hd1 : 0 < d1)
+    (hv : ViewOK fo.1.size d0 d1 b s0 s1) (ho : ViewOK fo.2.size d0 d1 ob os0 os1) :
+    (logical2 (pyDt fo d0 d1 b s0 s1 ob os0 os1).1 d0 d1 b s0 s1,
+     logical2 (pyDt fo d0 d1 b s0 s1 ob os0 os1).2 d0 d1 ob os0 os1) =
+      passCoord (passCoord (logical2 fo.1 d0 d1 b s0 s1, logical2 fo.2 d0 d1 ob os0 os1) 0) 1 ∧
+    (pyDt fo d0 d1 b s0 s1 ob os0 os1).1.size = fo.1.size ∧
+    (pyDt fo d0 d1 b s0 s1 ob os0 os1).2.size = fo.2.size ∧
+    (∀ x, (∀ i < d0, ∀ j < d1, addr2 b s0 s1 i j ≠ x) →
+      (pyDt fo d0 d1 b s0 s1 ob os0 os1).1.getD x 0 = fo.1.getD x 0) ∧
+    (∀ x, (∀ i < d0, ∀ j < d1, addr2 ob os0 os1 i j ≠ x) →
+      (pyDt fo d0 d1 b s0 s1 ob os0 os1).2.getD x 0 = fo.2.getD x 0) := by
+  obtain ⟨h1, h2, h3, h4, h5⟩ := pyDt_logical fo d0 d1 b s0 s1 ob os0 os1 hd0 hd1 hv ho
+  exact ⟨h3, h1, h2, h4, h5⟩
+
+/-- **C05-T2e (the `(1, n)` views of the n-D loop).** What the repaired `distance.py` does for arrays
+that are not 2-D: for one axis, every line (enumerated by its first element, in `np.ndindex` order)
+is passed to `py_dt` as a `(1, n)` view with strides `(0, stride_ax)`. (a) On such a view `py_dt` is
+exactly one `dist_transform` of the row (the pass along the length-1 axis changes nothing).
+(b) The whole loop over the lines of axis `ax` — on C-contiguous buffers of any rank and shape —
+produces the data of `passCoord · ax`. -/
+theorem C05_row_views_eq_coord :
+    (∀ (fo : Array Int × Array Int) (n i st : Nat), 0 < n →
+      pyDt fo 1 n (i : Int) 0 (st : Int) (i : Int) 0 (st : Int) =
+        dtLineA fo (fun t => i + t * st) (fun t => i + t * st) n) ∧
+    (∀ (shape : List Nat) (ax : Nat) (A O : Img Int), ax < shape.length →
+      A.shape = shape → O.shape = shape → A.data.size = shapeSize shape → O.data.size = shapeSize shape →
+      passAxis shape ax (A.data, O.data) = ((passCoord (A, O) ax).1.data, (passCoord (A, O) ax).2.data)) :=
+  ⟨fun fo n i st hn => pyDt_row fo n i st hn,
+   fun shape ax A O hax hA hO hAs hOs => passAxis_coord shape ax hax A O hA hO hAs hOs⟩
+
+/-- **C05-T2f (the model of the code = the coordinate-level passes, every rank and shape).**
+`distanceModel` — `f = zeros(shape)` filled with the Python sentinel, `orig = arange(size)`, then
+`py_dt` on the whole C-contiguous array when it is 2-D and the loop over axes and `(1, n)` line views
+otherwise — returns exactly the value and origin arrays of `distanceCoord`, for every shape (empty
+axes included) and every input of matching size. This was a run-time comparison
+(`model-coord-vs-flat`) before. -/
+theorem C05_model_eq_coord (shape : List Nat) (bw : Array Int) (hsz : bw.size = shapeSize shape) :
+    (distanceModel shape bw).1 = (distanceCoord shape bw).1.data ∧
+    (distanceModel shape bw).2 = (distanceCoord shape bw).2.data := by
+  rw [distanceModel_eq_coord shape bw hsz]
+  exact ⟨rfl, rfl⟩
+
+/-- **C05-T2 for the model of the code (`C05_distance_exact` transferred).** With some background
+pixel, the flat output of `distanceModel` at the C-order index of every pixel `p` is a lower bound of
+the squared distance from `p` to every background pixel and equals the squared distance to one of
+them — for every rank and shape. -/
+theorem C05_model_exact (shape : List Nat) (bw : Array Int) (hsz : bw.size = shapeSize shape)
+    (p : List Int) (hp : inside shape p = true)
+    (hbg : ∃ q0, inside shape q0 = true ∧ bw.getD (ravelI shape q0) 0 = 0) :
+    (∀ q, inside shape q = true → bw.getD (ravelI shape q) 0 = 0 →
+        (distanceModel shape bw).1.getD (ravelI shape p) 0 ≤ sqDist p q) ∧
+    (∃ q, inside shape q = true ∧ bw.getD (ravelI shape q) 0 = 0 ∧
+        (distanceModel shape bw).1.getD (ravelI shape p) 0 = sqDist p q) := by
+  have hshape : (distanceCoord shape bw).1.shape = shape :=
+    (passes_flat shape shape.length (Nat.le_refl _) (initCoord shape bw) (initCoord_good shape bw)).2.1
+  have hget : (distanceCoord shape bw).1.getD p 0 =
+      (distanceModel shape bw).1.getD (ravelI shape p) 0 := by
+    rw [(C05_model_eq_coord shape bw hsz).1]
+    unfold Img.getD
+    rw [hshape, if_pos hp]
+  rw [← hget]
+  exact C05_distance_exact shape bw p hp hbg
+
+/-- **C05 (`metric='euclidean'`).** In the wrapper model the result for `metric='euclidean'` is the
+element-wise IEEE square root (`np.sqrt(f, f)`; `Float.sqrt` is the correctly rounded C `sqrt`) of the
+double array holding the squared transform, which is the result for `'euclidean2'`: element `i` is
+`sqrt(double(distanceModel[i]))`. -/
+theorem C05_euclidean_is_sqrt (shape : List Nat) (bw : Array Int) :
+    distanceWrapper shape bw true = (distanceWrapper shape bw false).map Float.sqrt ∧
+    distanceWrapper shape bw false = (distanceModel shape bw).1.map Float.ofInt ∧
+    ∀ i (h : i < (distanceModel shape bw).1.size),
+      (distanceWrapper shape bw true)[i]? = some (Float.sqrt (Float.ofInt (distanceModel shape bw).1[i])) := by
+  refine ⟨rfl, rfl, ?_⟩
+  intro i h
+  simp [distanceWrapper, h]
+
+/-- **C05 (separation of intersection abscissae).** Two distinct fractions with positive denominators
+at most `D` differ by at least `1/D²`; a fraction that is not the integer `q` differs from it by at
+least `1/b`. (The abscissae of the kernel are integers over `2(v−u) ≤ 2n`.) -/
+theorem C05_abscissa_separation (a c : ℤ) (b d D : ℕ) (hb : 0 < b) (hd : 0 < d) (hbD : b ≤ D) (hdD : d ≤ D) :
+    ((a : ℚ) / b ≠ (c : ℚ) / d → 1 / (D : ℚ) ^ 2 ≤ |(a : ℚ) / b - (c : ℚ) / d|) ∧
+    ((a : ℚ) / b ≠ (c : ℚ) → 1 / (b : ℚ) ≤ |(a : ℚ) / b - (c : ℚ)|) :=
+  ⟨fun h => frac_separation_bound a c b d D hb hd hbD hdD h, fun h => frac_separation_int a c b hb h⟩
+
+/-- **C05 (the double-vs-rational assumption, made precise and discharged).** `AbscissaExact rnd g n`
+says: every comparison the C code makes — a rounded abscissa `rnd (s(u,v))` against another rounded
+abscissa, or against an integer `q ≤ n` — has the same outcome as the exact rational comparison.
+It holds for every rounding function that is monotone, has relative error at most `2⁻⁵³` and is exact
+on integers up to `2⁵³` (`Rounding`: what one IEEE-754 binary64 round-to-nearest division gives in the
+normal range; bit patterns are not modelled) whenever the sampled values are integers with
+`|g i| + i² ≤ B` and `4·n²·B < 2⁵³` — in particular for lines of at most `2¹²` elements with values
+in `[0, 2²⁶]` (the sentinels and all intermediate pass values of arrays with sides below `2¹²`, rank ≤ 4). -/
+theorem C05_abscissa_exact_of_bounds (rnd : ℚ → ℚ) (hr : Rounding rnd) (g : ℕ → ℚ) (mi : ℕ → ℤ) (n : ℕ)
+    (hg : ∀ i ≤ n, g i = (mi i : ℚ)) :
+    (∀ B : ℚ, (∀ i ≤ n, |g i| + (i : ℚ) ^ 2 ≤ B) → 4 * (n : ℚ) ^ 2 * B < 2 ^ 53 → AbscissaExact rnd g n) ∧
+    (n < 2 ^ 12 → (∀ i ≤ n, 0 ≤ g i) → (∀ i ≤ n, g i ≤ 2 ^ 26) → AbscissaExact rnd g n) :=
+  ⟨fun B hgB hB => abscissaExact_of_bounds rnd hr g mi n B hg hgB hB,
+   fun hn hlo hhi => abscissaExact_small rnd hr g mi n hn hg hlo hhi⟩
+
+/-- **C05 (the kernel with rounded abscissae selects the same owners).** `owners1dR rnd` is the model
+of `dist_transform` in which every abscissa is rounded (`s = rnd(…)`, stored in `z`, compared with
+stored `z` and with integers) — `buildR`/`popToR`/`pushR` instead of `build`/`popTo`/`push`. Under
+`AbscissaExact` it returns the same owners as the exact-rational model the theorems T1–T3 are about;
+hence for every `Rounding` and every line of at most `2¹²` values in `[0, 2²⁶]` the two kernels agree. -/
+theorem C05_rounded_kernel_same_owners (rnd : ℚ → ℚ) (f : Array Int) :
+    (AbscissaExact rnd (gOf f) (f.size - 1) → owners1dR rnd f = owners1d f) ∧
+    (Rounding rnd → f.size ≤ 2 ^ 12 → (∀ i, 0 ≤ f.getD i 0) → (∀ i, f.getD i 0 ≤ 2 ^ 26) →
+      owners1dR rnd f = owners1d f) :=
+  ⟨fun hA => owners1dR_eq rnd f hA, fun hr hs hlo hhi => owners1dR_eq_small rnd hr f hs hlo hhi⟩
+
+/-- **C05 (doubles decide like rationals on every line of every pass).** For every shape whose sides are
+at most `2¹²` and whose Python sentinel is at most `2²⁶` (every 2-D and 3-D array with sides `≤ 2¹²`,
+every 4-D array with sides `< 2¹²`), every input, every pass `k` and every pixel `p`: all values of the
+image before pass `k` lie in `[0, sentinel]` (each pass can only lower a value and keeps it non-negative),
+hence the line through `p` along axis `k` — the argument of the 1-D kernel in that pass — gets the same
+owners from the kernel with rounded abscissae (`owners1dR rnd`, any `Rounding`) as from the exact model. -/
+theorem C05_rounded_passes_same_owners (rnd : ℚ → ℚ) (hr : Rounding rnd) (shape : List Nat) (bw : Array Int)
+    (hside : ∀ d ∈ shape, d ≤ 2 ^ 12) (hsent : sentinel shape ≤ 2 ^ 26)
+    (k : Nat) (hk : k < shape.length) (p : List Int) :
+    Bounded (sentinel shape) ((List.range k).foldl passCoord (initCoord shape bw)).1 ∧
+    owners1dR rnd (lineOf ((List.range k).foldl passCoord (initCoord shape bw)).1 p k) =
+      owners1d (lineOf ((List.range k).foldl passCoord (initCoord shape bw)).1 p k) :=
+  ⟨(passes_bounded shape bw k (by omega)).1, lines_rounded_same rnd hr shape bw hside hsent k hk p⟩
+
+/-- non-vacuity of the size hypotheses: the largest 2-D, 3-D and 4-D shapes covered -/
+example : sentinel [4096, 4096] ≤ 2 ^ 26 ∧ sentinel [4096, 4096, 4096] ≤ 2 ^ 26 ∧
+    sentinel [4095, 4095, 4095, 4095] ≤ 2 ^ 26 := by decide
+
+/-- non-vacuity: a reversed-rows, every-other-column view (base 5, strides −4, 2) into a buffer of 8
+elements is `ViewOK`; `py_dt` on it transforms the four view elements and leaves the rest alone -/
+example : ViewOK 8 2 2 5 (-4) 2 :=
+  ⟨by decide, by intro i hi j hj i' hi' j' hj' h; omega⟩
+example : (pyDt (#[7, 9, 7, 9, 7, 0, 7, 9], #[0, 1, 2, 3, 4, 5, 6, 7]) 2 2 5 (-4) 2 5 (-4) 2)
+    = (#[7, 1, 7, 2, 7, 0, 7, 1], #[0, 5, 2, 5, 4, 5, 6, 5]) := by decide +kernel
+/-- non-vacuity: the model of the code on a 2-D and a 3-D image; the wrapper's square root -/
+example : (distanceModel [3, 4] #[1, 1, 1, 1, 1, 1, 1, 1, 1, 1, 0, 1]).1
+    = #[8, 5, 4, 5, 5, 2, 1, 2, 4, 1, 0, 1] := by decide +kernel
+example : (distanceModel [2, 2, 3] #[1, 1, 1, 1, 1, 1, 1, 1, 1, 1, 0, 1]).1
+    = #[3, 2, 3, 2, 1, 2, 2, 1, 2, 1, 0, 1] := by decide +kernel
+example : Rounding id ∧ AbscissaExact id (fun _ => 0) 5 :=
+  ⟨⟨fun _ _ h => h, fun x => by simp; positivity, fun _ _ => rfl⟩, ⟨fun _ _ _ _ _ _ _ _ => Iff.rfl, fun _ _ _ _ _ _ => Iff.rfl⟩⟩
